@@ -643,3 +643,29 @@ def units_C16(tier, seed):
     # writers to distinct coordinates: disjoint cells for all extents
     U += [u for u in layout_units(tier, 'C01') if ('rowmajor_' in u['name'] or 'morton_' in u['name'] or 'hilbert_' in u['name']) and 'api' not in u['name'] and 'ctor' not in u['name'] and u['flavour'] == 'rel']
     return U
+
+
+# ------------------------------------------------------------------------------------------------ C20
+INFO['C20'] = {
+    'bounds': 'sort_index_sequence on sequences of length 0..4 (quick) / 0..5 (thorough) of symbolic 64-bit elements: at every leaf of the '
+              'instantiation tree the output is ascending and a rearrangement of the input, and the leaves cover all inputs; '
+              'is_permutation on length pairs up to (3,3) quick / (4,4) thorough: value equals "some bijection matches" (all 64-bit values, '
+              'not an alphabet); rewrite rules re-extracted from clang\'s AST of static_permutation.hpp on every run; the witness of '
+              'every proved obligation and every counterexample is instantiated by g++ (static_assert)',
+    'outside': 'longer sequences; header shapes the rule extractor does not recognise make the check inconclusive (exit 2)',
+    'cuts': 'own evaluator of the template metaprogram (structural matching of partial specialisations, conditional_t forks, is_same)',
+    'assumptions': ['most-specialised-match selection as implemented in engine/tmpl.py (sufficient for this header; differential g++ instantiation of witnesses)'],
+}
+
+
+def units_C20(tier, seed):
+    th = tier == 'thorough'
+    U = []
+    for L in range(0, 6 if th else 5):
+        U.append({'name': f'c20_sort_{L}', 'c20': True, 'args': ['sort', str(L)], 'inst': f'sort_index_sequence<index_sequence<x0..x{L - 1}>>',
+                  'harness': 'tmpl', 'flavour': 'ast', 'mode': 'TEMPLATE', 'sites': [], 'cfg': {}, 'diff': True, 'weight': 10 ** L, 'timeout': 3000})
+    pairs = [(0, 0), (1, 0), (0, 1), (1, 1), (2, 1), (1, 2), (2, 2), (3, 3), (2, 3), (3, 2)] + ([(4, 4), (3, 4), (4, 3), (4, 2), (1, 3)] if th else [])
+    for a, b in pairs:
+        U.append({'name': f'c20_perm_{a}_{b}', 'c20': True, 'args': ['perm', str(a), str(b)], 'inst': f'is_permutation<seq{a},seq{b}>',
+                  'harness': 'tmpl', 'flavour': 'ast', 'mode': 'TEMPLATE', 'sites': [], 'cfg': {}, 'diff': True, 'weight': 10 ** (a + b - 2), 'timeout': 3000})
+    return U
